@@ -24,13 +24,15 @@ PLANS = {
                   ("fuse3", "fuse", 3, None, "simplify"), ("expr3", "expr", 3, 4000, "simplify"),
                   ("chain1_4", "chain1", 4, 3000, "simplify"), ("fuse1_3", "fuse1", 3, 4000, "simplify_m"),
                   ("betad3", "betad", 3, 4000, "simplify"), ("corea3", "corea", 3, 4000, "simplify_fresh"),
-                  ("fused3", "fused", 3, 4000, "simplify")],
+                  ("fused3", "fused", 3, 4000, "simplify"), ("betaw3", "betaw", 3, None, "simplify"),
+                  ("betads4", "betads", 4, None, "simplify")],
         "thorough": [("core3", "core", 3, None, "simplify"), ("beta3", "beta", 3, None, "simplify"),
                      ("corea3", "corea", 3, None, "simplify_fresh"),
                      ("fuse4", "fuse", 4, 120000, "simplify"), ("expr3", "expr", 3, None, "simplify"),
                      ("chain4", "chain", 4, 60000, "simplify"), ("fuse1_4", "fuse1", 4, 80000, "simplify_m"),
                      ("chain1_5", "chain1", 5, 60000, "simplify"), ("betad3", "betad", 3, None, "simplify"),
-                     ("fused3", "fused", 3, None, "simplify")],     # (betad budget 4: > 18M derivation states)
+                     ("fused3", "fused", 3, None, "simplify"), ("betaw4", "betaw", 4, 60000, "simplify"),
+                     ("betads4", "betads", 4, None, "simplify")],     # (betad budget 4: > 18M derivation states)
         "random": {"quick": (400, 7), "thorough": (6000, 8)},
     },
     "C18": {
@@ -44,9 +46,11 @@ PLANS = {
         "random": {"quick": (400, 7), "thorough": (6000, 8)},
     },
     "C14": {
-        "quick": [("chain1_4", "chain1", 4, None, "simplify"), ("chainp6", "chainp", 6, 8000, "simplify")],
+        "quick": [("chain1_4", "chain1", 4, None, "simplify"), ("chainp6", "chainp", 6, 8000, "simplify"),
+                  ("chainf5", "chainf", 5, None, "simplify")],
         "thorough": [("chain1_5", "chain1", 5, None, "simplify"), ("chain4", "chain", 4, None, "simplify"),
-                     ("chainp6", "chainp", 6, None, "simplify"), ("chainp7", "chainp", 7, 150000, "simplify")],
+                     ("chainp6", "chainp", 6, None, "simplify"), ("chainp7", "chainp", 7, 150000, "simplify"),
+                     ("chainf5", "chainf", 5, None, "simplify"), ("chainf6", "chainf", 6, 100000, "simplify")],
         "random": {"quick": (0, 0), "thorough": (0, 0)},
     },
 }
@@ -81,6 +85,33 @@ def nested_select_over_package(t):
     return _has_packaged_seq(t) and _select_over_projection(t)
 
 
+def _names(t, acc):
+    if t["k"] == "name":
+        acc.add(t["s"])
+    for c in t["a"]:
+        _names(c, acc)
+    return acc
+
+
+def param_named_in_argument(t):
+    """a called lambda one of whose parameter names also occurs in one of the call's arguments (sampling class only)"""
+    if t["k"] == "call" and t["a"][0]["k"] == "lam":
+        ps = set(t["a"][0]["p"])
+        for arg in t["a"][1:]:
+            if ps & _names(arg, set()):
+                return True
+    return any(param_named_in_argument(c) for c in t["a"])
+
+
+def priority(prop, fam, t):
+    """classes of programs the stratified sampler always keeps whole"""
+    if prop == "C14":
+        return nested_select_over_package(t)
+    if fam == "betads":
+        return param_named_in_argument(t)
+    return False
+
+
 def run(prop, tier):
     rep = common.Report(prop, tier)
     plan = PLANS[prop][tier]
@@ -99,8 +130,8 @@ def run(prop, tier):
             progs = [p for p in progs if has_kind(p, PACK)]
         if keep is not None:
             # the class the property singles out - a nested Select over a packaged sequence - is always kept whole
-            prio = [p for p in progs if prop == "C14" and nested_select_over_package(p)]
-            rest = [p for p in progs if not (prop == "C14" and nested_select_over_package(p))]
+            prio = [p for p in progs if priority(prop, fam, p)]
+            rest = [p for p in progs if not priority(prop, fam, p)]
             progs = prio + common.subsample_stratified(rest, max(0, keep - len(prio)), salt=name)
         fam_counts[name] = {"generated": total, "replayed": len(progs), "budget": budget,
                             "exhaustive": keep is None or total <= keep}
